@@ -398,11 +398,11 @@ Proof. intros [<-|[<-|[<-|[]]]]; vm_compute; reflexivity. Qed.
 Lemma role_to_setup_range r : role_to_setup r = "active"%string \/ role_to_setup r = "passive"%string.
 Proof. destruct r as [[|]|]; vm_compute; auto. Qed.
 
-(* every section answers with the same role, derived from the first media-level a=setup (first
-   negotiation) or kept from the earlier rounds *)
+(* every section answers with the same role, derived from the first media-level a=setup, else from the
+   session-level one (first negotiation), or kept from the earlier rounds *)
 Theorem setup_ok_thm c s o changed a v :
   c_mode c = MWebRtc -> applied s changed ->
-  f_sess_setup o = None ->
+  (f_sess_setup o = None \/ f_sess_setup o = Some v) ->
   (forall sec, In sec (f_secs o) -> o_setup sec = None \/ o_setup sec = Some v) ->
   In v ["active"%string; "passive"%string; "actpass"%string] ->
   (s_role s = None \/ exists r, s_role s = Some r /\ setup_ok v (role_to_setup (Some r)) = true) ->
@@ -417,16 +417,25 @@ Proof.
   apply finish_forall2; [intros x sec Hx; exact Hx|].
   apply forall2_in_r in Hb. eapply Forall2_impl; [|exact Hb]. intros x sec [[t [_ [_ Hbs]]] Hin].
   destruct (build_sec_fields _ _ _ _ _ _ Hbs) as [m [_ [_ [_ [_ [_ [_ [Hs _]]]]]]]].
-  unfold v_sec_setup. rewrite Hs, Hsess. unfold ans_setup. rewrite Hmode, Hr.
+  unfold v_sec_setup. rewrite Hs. unfold ans_setup. rewrite Hmode, Hr.
   set (role := new_role c (s_role s) o).
   assert (Hrange : (String.eqb (role_to_setup role) "active" || String.eqb (role_to_setup role) "passive") = true).
   { destruct (role_to_setup_range role) as [-> | ->]; reflexivity. }
-  rewrite Hrange. cbn [andb]. destruct (o_setup sec) as [w|] eqn:Ew; cbn [orelse]; [|reflexivity].
-  assert (w = v) by (destruct (Huni sec Hin) as [Hn|Hsome]; congruence). subst w.
+  rewrite Hrange. cbn [andb].
+  (* the value this section is offered with, if any, is v *)
+  destruct (orelse (o_setup sec) (f_sess_setup o)) as [w|] eqn:Ew; [|reflexivity].
+  assert (w = v).
+  { destruct (o_setup sec) as [w'|] eqn:Eo; cbn [orelse] in Ew.
+    - injection Ew as <-. destruct (Huni sec Hin) as [Hn|Hsome]; congruence.
+    - destruct Hsess as [Hn|Hsome]; congruence. }
+  subst w.
   unfold role, new_role. destruct Hrole as [-> | [r [-> Hok]]]; [|exact Hok].
-  rewrite Hmode. destruct (first_setup_uniform _ _ Huni) as [Hn| ->].
-  - rewrite (first_setup_none _ Hn sec Hin) in Ew. discriminate.
-  - cbn [option_map]. apply role_table_ok. exact Hv.
+  rewrite Hmode.
+  (* some value is offered, so the derivation finds one, and it is v *)
+  assert (Hfound : orelse (first_setup (f_secs o)) (f_sess_setup o) = Some v).
+  { destruct (first_setup_uniform _ _ Huni) as [Hn| ->]; [|reflexivity].
+    rewrite Hn. cbn [orelse]. rewrite (first_setup_none _ Hn sec Hin) in Ew. cbn [orelse] in Ew. exact Ew. }
+  rewrite Hfound. cbn [option_map]. apply role_table_ok. exact Hv.
 Qed.
 
 (* ------------------------------------------------------------------ refutations (listed findings) *)
@@ -485,18 +494,15 @@ Proof.
   split; [|vm_compute; reflexivity]. intros sec [<-|[<-|[]]]; reflexivity.
 Qed.
 
-(* F29: session-level a=setup:active *)
+(* F29 (fixed by aa4c5b4): session-level a=setup:active is now answered setup:passive *)
 Definition f29_offer : offer :=
   mkOffer [["0"%string]] (Some "active"%string)
     [mkOsec KAudio "0" DSendRecv [111] [mkCodec 111 "opus" 48000 2] [] [] true None].
-Theorem setup_refuted :
-  exists c o a, snd (negotiate c st_init o true) = AOk a /\ wfA (f_secs o) /\
-                forall2b (fun sec x => v_sec_setup (f_sess_setup o) sec x) (f_secs o) (a_secs a) = false.
-Proof.
-  exists cfg_default, f29_offer. eexists. split; [vm_compute; reflexivity|].
-  split; [|vm_compute; reflexivity].
-  split; [repeat constructor|]. cbn. repeat constructor; cbn; intuition discriminate.
-Qed.
+Theorem setup_session_level_ok :
+  exists a, snd (negotiate cfg_default st_init f29_offer true) = AOk a /\
+            forall2b (fun sec x => v_sec_setup (f_sess_setup f29_offer) sec x) (f_secs f29_offer) (a_secs a) = true /\
+            Forall (fun x => a_setup x = Some "passive"%string) (a_secs a).
+Proof. eexists. split; [vm_compute; reflexivity|]. split; [vm_compute; reflexivity|]. repeat constructor. Qed.
 
 (* F30: mid-less re-offer with spare pre-added video transceivers *)
 Definition f30_cfg : config := mkCfg MRtp true true [] [].
@@ -520,3 +526,100 @@ Example valid_answer_example :
   exists a, snd (negotiate cfg_default (add_transceiver st_init KAudio DSendRecv) good_offer true) = AOk a /\
             valid_answer good_offer a = true.
 Proof. eexists. split; vm_compute; reflexivity. Qed.
+
+(* ------------------------------------------------------------------ settled states and the unchanged re-offer *)
+(* a state whose transceivers are bound to the sections of the stored offer *)
+Definition settled (s : st) (o : offer) : Prop :=
+  s_remote s = Some o /\ inv_state s /\
+  (forall sec, In sec (f_secs o) -> exists t, In t (s_trx s) /\ sec_matches t sec).
+
+Lemma settled_fields c s o a :
+  wfA (f_secs o) -> settled s o -> create_answer c s = AOk a ->
+  exists pre, a = finish_answer c o pre /\ Forall2 (sec_fields c s o) pre (f_secs o).
+Proof.
+  intros Hwf [Hr [Hinv Hex]] H.
+  destruct (create_answer_shape _ _ _ H) as [o' [pre [Hr' [Hb ->]]]].
+  rewrite Hr in Hr'. injection Hr' as <-. exists pre. split; [reflexivity|].
+  pose proof (built_from_matches c s o pre Hwf Hinv Hex Hb) as Hf.
+  apply forall2_in_r in Hf. eapply Forall2_impl; [|exact Hf].
+  intros x sec [[t [[Hk [Hm Hd]] Hbs]] Hin].
+  destruct (build_sec_fields _ _ _ _ _ _ Hbs) as [m [Hm' [Hak [Ham [Had [Hae [Hamux [Hasetup [_ Hpts]]]]]]]]].
+  rewrite Hm in Hm'. injection Hm' as <-. unfold sec_fields, pts_apt_of.
+  rewrite Hk in *. repeat split; auto. exists t. auto.
+Qed.
+
+(* everything structural about one answer, given the section-by-section description of its fields *)
+Definition round_facts (c : config) (o : offer) (a : answer) : Prop :=
+  Forall2 (fun x sec => a_kind x = o_kind sec /\
+                        a_mid x = (if mids_kept c o then o_mid sec else EmptyString)) (a_secs a) (f_secs o) /\
+  Forall2 (fun x sec => dir_compat (o_dir sec) (a_dir x) = true) (a_secs a) (f_secs o) /\
+  Forall2 (fun x sec => v_sec_rtx sec x = true) (a_secs a) (f_secs o) /\
+  Forall2 (fun x sec => v_sec_mux sec x = true) (a_secs a) (f_secs o) /\
+  ((forall sec, In sec (f_secs o) -> nodup_z (map fst (o_ext sec)) = true) ->
+   Forall2 (fun x sec => v_sec_ext sec x = true) (a_secs a) (f_secs o)) /\
+  ((forall sec, In sec (f_secs o) -> In (o_mid sec) (List.concat (f_groups o))) -> v_bundle o a = true).
+
+Lemma fields_facts c s1 o pre :
+  wfA (f_secs o) -> Forall2 (sec_fields c s1 o) pre (f_secs o) -> round_facts c o (finish_answer c o pre).
+Proof.
+  intros Hwf Hf. unfold round_facts. repeat split.
+  - rewrite (finish_mids c o pre (Forall2_length _ _ _ Hf)). destruct (mids_kept c o).
+    + eapply Forall2_impl; [|exact Hf]. intros x sec Hx. destruct Hx as [_ [Hk [Hm _]]]. auto.
+    + apply forall2_map_l. eapply Forall2_impl; [|exact Hf]. intros x sec Hx. destruct Hx as [_ [Hk [Hm _]]]. auto.
+  - apply finish_forall2; [intros x sec Hx; exact Hx|].
+    eapply Forall2_impl; [|exact Hf]. intros x sec [_ [_ [_ [[t [_ [Hd Ha]]] _]]]]. rewrite Ha, <- Hd. apply ans_dir_compat.
+  - apply finish_forall2; [intros x sec Hx; exact Hx|].
+    eapply Forall2_impl; [|exact Hf]. intros x sec [Hin [_ [_ [_ [_ [_ [_ Hp]]]]]]].
+    unfold v_sec_rtx. assert (Ha : a_apt x = snd (pts_apt_of c (s_local s1) (f_secs o) (o_kind sec) (o_mid sec))) by (rewrite <- Hp; reflexivity).
+    rewrite Ha. unfold pts_apt_of. destruct (o_kind sec); cbn [snd]; try reflexivity.
+    apply subset_spec; [apply pair_eqb_refl|].
+    apply (video_pts_apt_sub c (f_secs o) (o_mid sec) sec). rewrite (lookup_mid_self _ _ (proj2 Hwf) Hin). reflexivity.
+  - apply finish_forall2; [intros x sec Hx; exact Hx|].
+    eapply Forall2_impl; [|exact Hf]. intros x sec [_ [_ [_ [_ [_ [Hmux _]]]]]].
+    unfold v_sec_mux. rewrite Hmux. destruct (o_mux sec); [apply implb_true_r|rewrite andb_false_r; reflexivity].
+  - intros Hids. apply finish_forall2; [intros x sec Hx; exact Hx|].
+    eapply Forall2_impl; [|exact Hf]. intros x sec [Hin [_ [_ [_ [He _]]]]].
+    unfold v_sec_ext. rewrite He, ans_ext_flat, (lookup_mid_self _ _ (proj2 Hwf) Hin).
+    apply andb_true_iff. split.
+    + apply subset_spec; [apply ext_eqb_refl|]. intros e Hx. apply (flat_lookup_in _ _ _ Hx).
+    + apply nodup_z_spec. apply flat_lookup_nodup; [apply nodup_z_spec; apply Hids; exact Hin|apply ext_uris_nodup].
+  - intros Hcover. unfold v_bundle.
+    assert (Hg : a_group (finish_answer c o pre) = match pre with [] => None | _ => if will_bundle c o then Some (map a_mid pre) else None end).
+    { unfold finish_answer. destruct pre; [reflexivity|]. destruct (c_legacy c); [reflexivity|].
+      destruct (negb (will_bundle c o) && _); reflexivity. }
+    rewrite Hg. destruct pre as [|p r]; [reflexivity|]. destruct (will_bundle c o); [|reflexivity].
+    apply subset_spec; [apply String.eqb_refl|]. intros m Hm. apply in_map_iff in Hm as [x [<- Hx]].
+    destruct (forall2_in_l _ _ _ _ Hf Hx) as [sec [_ [Hs [_ [Hm _]]]]]. rewrite Hm. apply Hcover. exact Hs.
+Qed.
+
+(* a processed round, all structural facts at once *)
+Theorem round_facts_applied c s o changed a :
+  wfA (f_secs o) -> inv_state s -> compat_state s o -> applied s changed ->
+  create_answer c (set_remote c s o changed) = AOk a -> round_facts c o a.
+Proof.
+  intros Hwf Hinv Hc Happ H.
+  destruct (coherent_fields c s o changed a Hwf Hinv Hc Happ H) as [pre [-> Hf]].
+  eapply fields_facts; eauto.
+Qed.
+
+(* the unchanged re-offer (the stack takes a shortcut: only the stored description is replaced): sending
+   the offer of a processed round again yields an answer with the same structural guarantees *)
+Theorem round_facts_unchanged c s o changed a :
+  wfA (f_secs o) -> inv_state s -> compat_state s o -> applied s changed ->
+  create_answer c (set_remote c (fst (negotiate c s o changed)) o false) = AOk a -> round_facts c o a.
+Proof.
+  intros Hwf Hinv Hc Happ H.
+  destruct (set_remote_post c s o changed Hwf Hinv Hc Happ) as [Hr [Hi1 [_ [_ [_ Hex]]]]].
+  set (s1 := set_remote c s o changed) in *.
+  assert (Hn : s_trx (fst (negotiate c s o changed)) = s_trx s1 /\ s_remote (fst (negotiate c s o changed)) = Some o).
+  { unfold negotiate. fold s1. cbn [fst]. destruct (create_answer c s1); cbn [s_trx s_remote]; auto. }
+  destruct Hn as [Hn1 Hn2].
+  set (s2 := set_remote c (fst (negotiate c s o changed)) o false) in *.
+  assert (Hs2 : s_trx s2 = s_trx s1 /\ s_remote s2 = Some o).
+  { unfold s2, set_remote. rewrite Hn2. cbn [s_trx s_remote]. auto. }
+  destruct Hs2 as [Ht2 Hr2].
+  assert (Hset : settled s2 o).
+  { split; [exact Hr2|]. split; [unfold inv_state; rewrite Ht2; exact Hi1|]. intros sec Hs. rewrite Ht2. apply Hex. exact Hs. }
+  destruct (settled_fields c s2 o a Hwf Hset H) as [pre [-> Hf]].
+  eapply fields_facts; eauto.
+Qed.
